@@ -17,6 +17,11 @@ MANIFEST = {
             "interleaved_gets_reassemble: block requests of any number of transfers with any filters may interleave in any order on "
             "one or several sessions - the Block2 response cache, keyed by coap_get_query()'s string (injective by C16), serves "
             "every transfer from its own listing; checked against real interleaved GETs through coap_dispatch() (getx). "
+            "live_gets_current_listing: for EVERY sequence of coap_add_resource / coap_delete_resource / coap_add_attr and "
+            "coap_resource_set_get_observable on already registered resources, interleaved with complete block-wise GETs and "
+            "coap_print_wellknown calls, from any table and any Block2-cache content, every request yields the listing of the "
+            "table as it is at that moment (nothing computed for an earlier request survives); checked against the real code "
+            "on one long-lived context per line (wklive: GET, change a REGISTERED resource, GET again, ...). "
             "Four defects found by the check were fixed in libcoap (match() prefix overread / cross-token match, read behind an "
             "empty pattern, quote stripping with SIZE_MAX length, GET path filtering on the percent-encoded query); none is open.",
     "note": "Trusted: Lean kernel (+ propext, Classical.choice, Quot.sound), harness/generator/judge, the hand transcription M "
@@ -29,7 +34,8 @@ NAMESPACE = "Coap.C20"
 REQUIRED_THEOREMS = ["window_exact", "total_exact", "trunc_flag_iff", "listing_exactly_registered", "match_eq_spec",
                      "match_no_overread", "block_get_reassembles", "wellknown_eq", "filter_eq_spec", "get_body_eq_listing",
                      "get_reassembles", "get_query_with_space_listed",
-                     "interleaved_gets_reassemble", "interleaved_gets_reassemble_of_keyed", "keyed_of_small"]
+                     "interleaved_gets_reassemble", "interleaved_gets_reassemble_of_keyed", "keyed_of_small",
+                     "live_gets_current_listing", "get_after_change", "attr_added_is_listed"]
 RULE = ("resource tables built by 0..12 coap_add_resource/coap_delete_resource calls (paths from a small pool so that "
         "re-registration happens, 0..4 attributes with/without value, quoted/unquoted/empty/one-byte/malformed-quote values, "
         "observable / OSCORE-only markers, library-copied or caller-owned exact-size strings) x filters (none, NULL, href/rt/if/rel/"
@@ -37,7 +43,10 @@ RULE = ("resource tables built by 0..12 coap_add_resource/coap_delete_resource c
         "ALL (offset, buflen) pairs up to listing length + 2 for listings up to the tier's size limit (sampled rows/columns "
         "beyond), plus the size-probe/full-print body of the GET handler, a real block-wise GET through coap_dispatch() for "
         "every Block2 size (SZX 0..6), interleaved block-wise GETs (2-3 transfers with different/equal/no filters on one or two "
-        "sessions, round-robin / bug-order / sequential / random orders) and match() on short strings over {a,b,SP}; "
+        "sessions, round-robin / bug-order / sequential / random orders), live sequences on ONE context (wklive: 3-14 events; "
+        "coap_add_attr / coap_resource_set_get_observable on registered (sometimes unregistered) paths, re-registration, deletion, "
+        "interleaved with complete block-wise GETs - mostly unfiltered, repeated on the same session, SZX 0..6 - and "
+        "coap_print_wellknown calls) and match() on short strings over {a,b,SP}; "
         "non-trivial = distinct input whose listing is non-empty")
 TRUSTED_BASE = ["Lean 4.33 kernel; axioms allowed: propext, Classical.choice, Quot.sound (audited per theorem each run)",
                 "harness/linkfmt.c + generator + field-wise comparison in props/C20.py",
@@ -47,6 +56,10 @@ TRUSTED_BASE = ["Lean 4.33 kernel; axioms allowed: propext, Classical.choice, Qu
                 "M of the Block2 response cache (CoapVerif/Model/WkBlock.lean: coap_handle_request_send_block / coap_find_lg_xmit_response / "
                 "coap_add_data_large_internal as far as they decide which body a block comes from; GET + Block2 only, no ETag/Request-Tag/"
                 "Observe/Q-Block, no expiry) - checked by the getx differential; the block layer as a whole is C09's",
+                "M of a live server (CoapVerif/Model/WkLive.lean: hnd_get_wellknown_lkd keeps nothing between requests, the Block2 cache "
+                "is the only surviving state; table changes happen between complete fetches) - checked by the wklive differential; "
+                "coap_add_attr = prepend to the registered resource's attributes, coap_resource_set_get_observable = flag in place "
+                "(Spec applyOp, shared by M and S, exercised by the generator, not proved)",
                 "uthash iterates in insertion order and coap_add_resource replaces an equal path (modelled by Spec register/unregister, "
                 "exercised by the generator, not proved)"]
 ASSUMPTIONS = ["buflen <= COAP_PRINT_STATUS_MAX (0x0FFFFFFF) and offset + buflen < 2^64 (no wrap of the status word / size_t)",
@@ -284,6 +297,79 @@ def getx_lines(rng, n):
     return out
 
 
+def enc_attr(n, v):
+    return hx(n) + ("" if v is None else "=" + hx(v))
+
+
+def live_lines(rng, n):
+    """a live server: ONE context whose table keeps changing between complete block-wise GETs (and listings printed by the
+    application).  Most changes are made to resources that ARE registered (coap_add_attr, coap_resource_set_get_observable:
+    the set of resources stays, the listing grows or shrinks), the others add / replace / delete resources; most requests are
+    unfiltered and repeat an earlier request on the same session, so that anything a server kept from an earlier answer
+    (a length, a body, a cache entry) would show."""
+    out = []
+    while len(out) < n:
+        ents = [e for e in gen_table(rng, rng.choice([1, 2, 2, 3, 4, 6])) if not (e[0] == "+" and e[1] == WK)]
+        if not any(e[0] == "+" for e in ents):
+            continue
+        evs = [enc_table([e]) for e in ents]
+        live = []                                  # paths registered now, with duplicates removed
+        for e in ents:
+            if e[0] == "+":
+                live = [p for p in live if p != e[1]] + [e[1]]
+            else:
+                live = [p for p in live if p != e[1]]
+        obs = {}
+        filters = [f for f in gen_filters(rng, ents, 3)[2:] if len(f) <= 2 * 200]
+        szx = rng.choice([0, 0, 0, 1, 1, 2, 3, 6])
+        two = rng.random() < 0.25
+        if rng.random() < 0.1:                     # sometimes a change comes before the first request
+            pass
+        else:
+            evs.append("g%d%d:N" % (0, szx))
+        for _ in range(rng.randint(2, 9)):
+            c = rng.random()
+            if c < 0.30:                           # describe a resource further (mostly one that is registered)
+                p = rng.choice(live) if live and rng.random() < 0.9 else rng.choice(PATHS)
+                if p == WK:
+                    continue
+                evs.append("a%s:%d:%s" % (hx(p), rng.choice([0, 4]), enc_attr(rng.choice(NAMES), gen_value(rng))))
+            elif c < 0.42:                         # observable flag of a registered resource
+                p = rng.choice(live) if live and rng.random() < 0.9 else rng.choice(PATHS)
+                if p == WK:
+                    continue
+                b = (not obs.get(p, False)) if rng.random() < 0.8 else rng.random() < 0.5
+                obs[p] = b
+                evs.append("o%s:%d" % (hx(p), 1 if b else 0))
+            elif c < 0.50:                         # another / the same resource is registered
+                e = [x for x in gen_table(rng, 1) if x[0] == "+" and x[1] != WK]
+                if not e:
+                    continue
+                if live and rng.random() < 0.3:
+                    e[0] = ("+", rng.choice(live), e[0][2], e[0][3])
+                evs.append(enc_table(e))
+                live = [p for p in live if p != e[0][1]] + [e[0][1]]
+                obs.pop(e[0][1], None)
+            elif c < 0.55 and live:                # a resource goes
+                p = rng.choice(live + [b"nope"])
+                evs.append("!" + hx(p))
+                live = [q for q in live if q != p]
+            elif c < 0.62:                         # the application prints the listing itself
+                evs.append("p" + (rng.choice(filters) if filters and rng.random() < 0.3 else rng.choice(["N", "N", "-"])))
+            else:                                  # a client asks
+                q = "N"
+                if filters and rng.random() < 0.3:
+                    q = rng.choice(filters)
+                    if rng.random() < 0.1:
+                        q += "+" + rng.choice(["78", "-", "72743d61"])
+                z = szx if rng.random() < 0.8 else rng.choice([0, 1, 2, 4, 6])
+                evs.append("g%d%d:%s" % (rng.randint(0, 1) if two else 0, z, q))
+        if not evs[-1].startswith("g"):
+            evs.append("g%d%d:N" % (0, szx))
+        out.append("wklive " + "/".join(evs))
+    return out
+
+
 def match_lines(rng, n, exhaustive):
     out = []
     alpha = [b"a", b"b", b" "]
@@ -353,6 +439,7 @@ def generate(ctx, escalate=False):
     ctx.cov["exhaustive"] = {"table_filter_pairs_with_all_windows": nfull, "pairs_with_edge_rows_columns_and_sample": nsampled,
                              "full_window_limit": full_limit, "printer_calls": nwin, "tables": ntables}
     out += getx_lines(rng, 2500 if thorough else 400)
+    out += live_lines(rng, (4000 if thorough else 700) * (2 if escalate else 1))
     out += match_lines(rng, 6000, thorough)
     return out
 
@@ -398,6 +485,15 @@ def judge(ctx, c):
             if a != b:
                 return ("spec", "transfer %d of the interleaving reassembles to %s (body:responses), its own listing is %s"
                         % (k, short(a), short(b)))
+    elif op == "wklive":
+        ri, rs = i.split(","), (s or "").split(",")
+        if len(ri) != len(rs):
+            return ("spec", "implementation %s but the specification says %s" % (short(i), short(s)))
+        reqs = [e for e in c["input"].split()[1].split("/") if e[:1] in ("g", "p")]
+        for k, (a, b) in enumerate(zip(ri, rs)):
+            if a != b:
+                return ("spec", "request %d (%s) of the live sequence yields %s (body:responses); the listing of the resources "
+                                "registered at that moment is %s" % (k, reqs[k] if k < len(reqs) else "?", short(a), short(b)))
     else:
         if i != s:
             return ("spec", "implementation %s but the specification says %s" % (short(i), short(s)))
@@ -418,6 +514,8 @@ def nontrivial(c):
         return not s.startswith("F-;")
     if c["input"].startswith("getx"):
         return any(not w.startswith("-:") for w in s.split(","))
+    if c["input"].startswith("wklive"):
+        return len(set(w for w in s.split(",") if not w.startswith("-:"))) >= 2      # at least two different non-empty listings
     return s not in ("", "-") and not s.startswith("-:")
 
 
@@ -465,6 +563,28 @@ def shrink_getx(ctx, case):
     return best
 
 
+def shrink_live(ctx, case):
+    """drop events (one at a time, repeatedly) while the implementation still contradicts the specification"""
+    from vlib.runner import diff_side
+    import props.C20 as me
+    best = case
+    for _ in range(12):
+        evs = best["input"].split()[1].split("/")
+        if len(evs) <= 1:
+            break
+        lines = ["wklive " + "/".join(evs[:k] + evs[k + 1:]) for k in range(len(evs))]
+        hit = None
+        for cc in diff_side(ctx, me, lines):
+            v = judge(ctx, cc)
+            if v and v[0] == "spec":
+                cc["why"] = v[1]; hit = cc
+                break
+        if not hit:
+            break
+        best = hit
+    return best
+
+
 def shrink(ctx, case):
     """keep one window; then drop table entries / attributes while the implementation still contradicts S"""
     from vlib.runner import diff_side
@@ -472,6 +592,8 @@ def shrink(ctx, case):
     p = case["input"].split()
     if p[0] == "getx":
         return shrink_getx(ctx, case)
+    if p[0] == "wklive":
+        return shrink_live(ctx, case)
     if p[0] != "wk":
         return case
     best = case
@@ -504,7 +626,8 @@ def shrink(ctx, case):
     return best
 
 
-WK_HEX = b".well-known/core".hex()
+WK = b".well-known/core"
+WK_HEX = WK.hex()
 UNESCAPED = set(b"ABCDEFGHIJKLMNOPQRSTUVWXYZabcdefghijklmnopqrstuvwxyz0123456789-._~!$'()*+,;=:@&/?")
 
 
